@@ -12,6 +12,23 @@ NOT_APPLICABLE = {}
 HOOK_COMMITS = []
 
 CHECKS = {
+    "C08": {
+        "run": "^TestC08_",
+        "rule": ("sync clause: cases = (synchronous row or chain, params, script) driven one notification at a time through a manual source from the harness goroutine, "
+                 "checked after every call; non-trivial = script with >= 2 values. Hand-off clause: cases = (ObserveOn | SubscribeOn | ToChannel, capacity, input "
+                 "length, ending, per-item consumer delays); non-trivial = length > capacity and a consumer that stalls at least once. Distinct by descriptor hash. "
+                 "'bound-reached' in classes counts the hand-off cases where the producer actually got capacity+1 ahead (the bound is exercised, not vacuous)."),
+        "quick": {"rapid": 200, "timeout": 300, "shards": 4},
+        "thorough": {"rapid": 3000, "timeout": 3000, "shards": 16},
+        "assumptions": COMMON_ASSUMPTIONS + ["hand-off bounds are upper bounds sampled in the producer and the consumer; machine load can only make them easier to satisfy"],
+        "technique": "property-based testing: step-wise differential against an incremental reference model (count, goroutine id, stamp window) + generated consumer-stall patterns with an upper-bound invariant",
+        "level_text": ("Exploration. Sync clause: for every synchronous catalogue row (all params, scripts of length <= 4/5) and rapid chains, after each individual "
+                       "Next/Error/Complete call on the source returns, the observer must already hold exactly the outputs the incremental model assigns to the "
+                       "prefix, each delivered on the caller's goroutine and finished inside the call (logical stamps). Hand-off clause: ObserveOn/SubscribeOn/"
+                       "ToChannel with capacities {0,1,2,3,8}, lengths around the capacity, slow consumers: FIFO without loss, terminal after every queued value, "
+                       "producer never more than capacity+2 ahead."),
+        "level_note": "The hand-off part runs in real time with real goroutines; only upper bounds and order/loss relations are asserted, so timing cannot raise an alarm.",
+    },
     "C07": {
         "run": "^TestC07_",
         "level": "fault_enumeration",
